@@ -149,4 +149,48 @@ example :
 -- The same filter registered twice is called twice, in order.
 example : muxServe (muxRegister [[35], [35]]) [97] = [0, 1] := by decide
 
+/-! ### a ServeMux used over time (`Handle` and `Serve` interleaved) -/
+
+/-- the filters passed to `Handle` in a list of operations -/
+def handlesOf : List MuxOp → List Bytes
+  | [] => []
+  | .handle f :: rest => f :: handlesOf rest
+  | .serve _ :: rest => handlesOf rest
+
+/-- the number of `Serve` calls in a list of operations -/
+def servesIn : List MuxOp → Nat
+  | [] => 0
+  | .handle _ :: rest => servesIn rest
+  | .serve _ :: rest => servesIn rest + 1
+
+theorem muxSeq_length (ops : List MuxOp) (fs : List Bytes) : (muxSeq ops fs).length = servesIn ops := by
+  induction ops generalizing fs with
+  | nil => rfl
+  | cons o rest ih => cases o <;> simp [muxSeq, servesIn, ih]
+
+/-- Every `Serve` — wherever it stands in the history — calls exactly the handlers registered BEFORE it
+    whose filter matches (so a handler registered after a topic was first served is called for it next time,
+    and one registered later is not called earlier). -/
+theorem muxSeq_serve (pre post : List MuxOp) (t : Bytes) (fs : List Bytes) :
+    (muxSeq (pre ++ .serve t :: post) fs)[servesIn pre]? =
+      some (muxServe (muxRegister (fs ++ handlesOf pre)) t) := by
+  induction pre generalizing fs with
+  | nil => simp [muxSeq, servesIn, handlesOf]
+  | cons o rest ih =>
+    cases o with
+    | handle f => simpa [muxSeq, servesIn, handlesOf, List.append_assoc] using ih (fs ++ [f])
+    | serve u => simpa [muxSeq, servesIn, handlesOf] using ih fs
+
+/-- … spelled out with the §4.7 specification -/
+theorem muxSeq_called_iff (pre post : List MuxOp) (t : Bytes) (i : Nat) :
+    (∃ called, (muxSeq (pre ++ .serve t :: post) [])[servesIn pre]? = some called ∧ i ∈ called) ↔
+      ∃ f, (handlesOf pre)[i]? = some f ∧ Spec.ValidFilter f ∧ Spec.Matches (Spec.levels f) (Spec.levels t) := by
+  rw [muxSeq_serve]
+  simp only [List.nil_append, Option.some.injEq, exists_eq_left']
+  exact mux_called_iff (handlesOf pre) t i
+
+-- Serve "a/b", then Handle "a/#", then Serve "a/b" again: the second Serve calls the new handler.
+example : muxSeq [.serve [97, 47, 98], .handle [97, 47, 35], .serve [97, 47, 98], .handle [35], .serve [99]] []
+    = [[], [0], [1]] := by decide
+
 end Mqtt.C14
